@@ -4,6 +4,7 @@ package main
 
 import (
 	"fmt"
+	"go/ast"
 	"go/constant"
 	"go/types"
 	"math"
@@ -518,4 +519,79 @@ func isConstTerm(s string) (*big.Int, bool) {
 		}
 	}
 	return nil, false
+}
+
+// globalConstTerm: the value of a package-level table that is initialised by a constant expression and never
+// written afterwards ([N]bool / [N]int / [N]string composite literals with constant elements, constant strings).
+// Editing an entry of such a table changes the verification conditions.
+func (g *Gen) globalConstTerm(gl *ssa.Global) (string, bool) {
+	if t, ok := g.globConst[gl]; ok {
+		return t, t != ""
+	}
+	if g.globConst == nil {
+		g.globConst = map[*ssa.Global]string{}
+	}
+	g.globConst[gl] = ""
+	expr, info := g.P.globalInit(gl)
+	if expr == nil {
+		return "", false
+	}
+	el := gl.Type().(*types.Pointer).Elem()
+	if tv, ok := info.Types[expr]; ok && tv.Value != nil && isString(el) {
+		t := g.strConst(constant.StringVal(tv.Value))
+		g.globConst[gl] = t
+		return t, true
+	}
+	at, isArr := el.Underlying().(*types.Array)
+	cl, isLit := expr.(*ast.CompositeLit)
+	if !isArr || !isLit {
+		return "", false
+	}
+	term := "((as const " + g.S.sortOf(el) + ") " + g.S.zero(at.Elem()) + ")"
+	next := int64(0)
+	for _, e := range cl.Elts {
+		var val ast.Expr = e
+		idx := next
+		if kv, ok := e.(*ast.KeyValueExpr); ok {
+			ktv, ok := info.Types[kv.Key]
+			if !ok || ktv.Value == nil {
+				return "", false
+			}
+			k, exact := constant.Int64Val(constant.ToInt(ktv.Value))
+			if !exact {
+				return "", false
+			}
+			idx = k
+			val = kv.Value
+		}
+		vtv, ok := info.Types[val]
+		if !ok || vtv.Value == nil {
+			return "", false
+		}
+		var vt string
+		switch {
+		case isBool(at.Elem()):
+			if constant.BoolVal(vtv.Value) {
+				vt = "true"
+			} else {
+				vt = "false"
+			}
+		case isString(at.Elem()):
+			vt = g.strConst(constant.StringVal(vtv.Value))
+		default:
+			bits, _, isInt := intInfo(at.Elem())
+			if !isInt {
+				return "", false
+			}
+			n, _ := constant.Int64Val(constant.ToInt(vtv.Value))
+			vt = g.S.intConst(n, bits)
+		}
+		term = "(store " + term + " " + g.idxConst(idx) + " " + vt + ")"
+		next = idx + 1
+	}
+	name := "gtab_" + sanitize(gl.Pkg.Pkg.Name()+"_"+gl.Name())
+	g.emit("(define-fun " + name + " () " + g.S.sortOf(el) + " " + term + ")")
+	g.globConst[gl] = name
+	g.note("table " + gl.Pkg.Pkg.Name() + "." + gl.Name() + " imported from its constant initialiser (never written after init: checked syntactically)")
+	return name, true
 }
